@@ -536,6 +536,12 @@ func isFatalName(n string) bool {
 func (in *Interp) callSSA(caller *frame, callpos token.Pos, fn *ssa.Function, args []Value, env []Value) Value {
 	if fn.Parent() == nil {
 		name := fn.String()
+		if len(in.cfg.Redirects) > 0 {
+			if r, ok := in.cfg.Redirects[name]; ok && r != fn {
+				in.res.Stubs["redirect:"+name]++
+				return in.callSSA(caller, callpos, r, args, nil)
+			}
+		}
 		if ext, ok := intrinsics[name]; ok {
 			in.curPos = callpos
 			if in.tracing {
